@@ -38,6 +38,29 @@ type schedExec struct {
 	lastRan string
 	hang    string
 	outcome string // set by the scenario's end oracle: what this execution observably did
+	policy  schedPolicy
+}
+
+// schedPolicy selects the DEFAULT schedule around which deviations are counted (the menu at every point is the same;
+// only its canonical order changes, and with it which schedules lie within the deviation bound). The zero policy is
+// "continue what ran last, else first name". FastNotify puts parked notification deliveries first (a fast broker);
+// SlowRPC names client stubs whose request and response gates come last (a client on a slow network: its requests
+// reach the server late and its answers come back late).
+type schedPolicy struct {
+	FastNotify bool     `json:"fast_notify,omitempty"`
+	SlowRPC    []string `json:"slow_rpc,omitempty"`
+}
+
+func (p schedPolicy) class(name, label string) int {
+	if p.FastNotify && strings.HasPrefix(name, "deliver:") {
+		return 0
+	}
+	for _, c := range p.SlowRPC {
+		if label == "rpc.request:pushpull:"+c || label == "rpc.response:pushpull:"+c {
+			return 2
+		}
+	}
+	return 1
 }
 
 // activity is a harness-started goroutine.
@@ -90,8 +113,16 @@ func (x *schedExec) drive(prefix []int, maxPoints int, atPoint func() *pt.Violat
 		}
 		menu := x.sched.Menu()
 		names := make([]string, 0, len(menu)+1)
+		var first, last []string
 		for _, p := range menu {
-			names = append(names, p.Activity)
+			switch x.policy.class(p.Activity, p.Label) {
+			case 0:
+				first = append(first, p.Activity)
+			case 2:
+				last = append(last, p.Activity)
+			default:
+				names = append(names, p.Activity)
+			}
 		}
 		// canonical order: the continuation of what ran last first, then ascending names. An activity
 		// and the goroutines it spawned form one family; the continuation is the activity that ran last
@@ -111,6 +142,14 @@ func (x *schedExec) drive(prefix []int, maxPoints int, atPoint func() *pt.Violat
 			copy(names[1:best+1], names[0:best])
 			names[0] = n
 			runOK = true
+		}
+		if len(first) > 0 || len(last) > 0 {
+			sort.Strings(first)
+			sort.Strings(last)
+			if len(first) > 0 {
+				runOK = true
+			}
+			names = append(append(first, names...), last...)
 		}
 		blocked := !x.allDone() && x.hasBlocked(names)
 		if blocked {
